@@ -298,7 +298,13 @@ def frame_cases(ctx, env_ctl, n):
                 vals[key] = None
         env_ctl.apply(env)
         cfg = ConfigService(dict(custom), tracepoints=TracepointConfigService())
-        f = rng.choice(files)
+        if rng.random() < 0.5:
+            f = rng.choice(files)
+        else:
+            # composed names: a known prefix followed by segments that may repeat a prefix's own text
+            pool = ["/app", "/app/vendor", "/usr/lib", "/opt/x", "/srv", "/a", "lib", "/app/vendor/x"]
+            f = rng.choice(pool + [root, "", "/other"]) + "".join(
+                rng.choice(pool + ["/main.py", "/pkg", "/x.py", root]) for _ in range(rng.choice([1, 2, 3])))
         j = dict(include=jv(vals["IN_APP_INCLUDE"]), include_from=how_i, exclude=jv(vals["IN_APP_EXCLUDE"]),
                  exclude_from=how_e, app_root=root, file=f)
         ctx.case(j, nontrivial=bool(incl or excl), bucket="frame inc=%s exc=%s" % (how_i, how_e))
